@@ -503,7 +503,8 @@ func (ctx Ctx) selectorMethod(f *ast.SelectorExpr, call *ast.CallExpr) coq.Expr 
 	case *types.Struct:
 		structInfo, ok := ctx.getStructInfo(selectorType)
 		if !ok {
-			panic("expected struct")
+			ctx.nope(f, "expected struct, got %v", selectorType)
+			return nil
 		}
 
 		// see if f.Sel.Name is a struct field, and translate accordingly if so
@@ -516,7 +517,12 @@ func (ctx Ctx) selectorMethod(f *ast.SelectorExpr, call *ast.CallExpr) coq.Expr 
 		}
 	}
 
-	namedTy := deref.(*types.Named)
+	namedTy, ok := deref.(*types.Named)
+	if !ok {
+		// e.g. a method called on a value whose type is a type parameter
+		ctx.unsupported(f, "method call on a value of type %v", deref)
+		return nil
+	}
 	tyName := ctx.qualifiedName(namedTy.Obj())
 	callArgs := append([]ast.Expr{f.X}, args...)
 	fullName := coq.MethodName(tyName, f.Sel.Name)
